@@ -16,7 +16,28 @@ let ints_of_key (k : key) = let (((e, p), h), ip) = k in (int_of_n e, int_of_n p
 let cls_of_err = function
   | ECtx (_, _) -> "ctx" | EDial -> "dial" | EInit _ -> "init" | EClosed _ -> "closed"
   | EExists -> "exists" | EWrite _ -> "write"
-let kind_str = function KData t -> Printf.sprintf "d %d" (int_of_n t) | KError -> "e" | KComplete -> "c"
+let kind_str = function
+  | KData t -> Printf.sprintf "d %d" (int_of_n t) | KDataNil -> "d -1" | KError -> "e" | KComplete -> "c"
+  | KConnErr b -> Printf.sprintf "x %d" (if b then 1 else 0) | KUnknown -> "unknown"
+
+(* frames: the harness' codes *)
+let ftype_code = function
+  | FNext -> 0 | FData -> 1 | FError -> 2 | FComplete -> 3 | FConnError -> 4 | FPing -> 5 | FPong -> 6 | FKa -> 7
+  | FAck -> 8 | FOther -> 9 | FGarbage -> 10
+let ftype_of_code = function
+  | 0 -> FNext | 1 -> FData | 2 -> FError | 3 -> FComplete | 4 -> FConnError | 5 -> FPing | 6 -> FPong | 7 -> FKa
+  | 8 -> FAck | 9 -> FOther | _ -> FGarbage
+let proto_code = function PTws -> 0 | PGws -> 1
+let proto_of_code = function 0 -> PTws | _ -> PGws
+let pl_codes = function PNone -> (0, 0) | PObj t -> (1, int_of_n t) | PBad -> (2, 0)
+let pl_of_codes pl tag = match pl with 0 -> PNone | 1 -> PObj (n_of_int tag) | _ -> PBad
+(* (up conn proto type id payload tag): id -2 = the frame has no id, -1 = an id nobody was given *)
+let up_str c p t w pl tag = Printf.sprintf "(up %d %d %d %d %d %d)" c p t w pl (if pl = 1 then tag else 0)
+let setype_code = function SNext -> 0 | SError -> 1 | SComplete -> 2 | SNoType -> 3 | SOtherType -> 4
+let setype_of_code = function 0 -> SNext | 1 -> SError | 2 -> SComplete | 3 -> SNoType | _ -> SOtherType
+let sdata_codes = function DAbsent -> (0, 0) | DEmpty -> (1, 0) | DObj t -> (2, int_of_n t) | DBad -> (3, 0)
+let sdata_of_codes d tag = match d with 0 -> DAbsent | 1 -> DEmpty | 2 -> DObj (n_of_int tag) | _ -> DBad
+let sseup_str i t d tag = Printf.sprintf "(sseup %d %d %d %d)" i t d (if d = 2 then tag else 0)
 
 (* model event -> canonical strings (wire ids replaced by their owner) *)
 let show_model_ev (owner : int -> int) (e : ev) : string list =
@@ -30,7 +51,9 @@ let show_model_ev (owner : int -> int) (e : ev) : string list =
   | OSrvSub (c, w, i) -> [Printf.sprintf "(ssub %d %d %d)" (ii c) (ii i) (ii i)]
   | OSrvStop (c, w) -> [Printf.sprintf "(sstop %d %d)" (ii c) (owner (ii w))]
   | OSrvClosed c -> [Printf.sprintf "(sclosed %d)" (ii c)]
-  | OUp (c, w, k) -> [Printf.sprintf "(up %d %d %s)" (ii c) (owner (ii w)) (match k with KData t -> Printf.sprintf "d %d" (int_of_n t) | KError -> "e 0" | KComplete -> "c 0")]
+  | OUp (c, p, f) ->
+    let (pl, tag) = pl_codes f.f_pl in
+    [up_str (ii c) (proto_code p) (ftype_code f.f_type) (match f.f_id with None -> -2 | Some w -> owner (ii w)) pl tag]
   | OAccept d -> [Printf.sprintf "(accept %d)" (ii d)]
   | OReject d -> [Printf.sprintf "(reject %d)" (ii d)]
   | OAck d -> [Printf.sprintf "(ack %d)" (ii d)]
@@ -41,7 +64,7 @@ let show_model_ev (owner : int -> int) (e : ev) : string list =
   | OStats (a, b) -> [Printf.sprintf "(stats %d %d)" (ii a) (ii b)]
   | OSseReq i -> [Printf.sprintf "(ssereq %d)" (ii i)]
   | OSseRet (i, ok) -> [Printf.sprintf "(sseret %d %s)" (ii i) (if ok then "t" else "f")]
-  | OSseUp (i, k) -> [Printf.sprintf "(sseup %d %s)" (ii i) (match k with KData t -> Printf.sprintf "d %d" (int_of_n t) | KError -> "e 0" | KComplete -> "c 0")]
+  | OSseUp (i, e) -> let (d, tag) = sdata_codes e.se_data in [sseup_str (ii i) (setype_code e.se_type) d tag]
   | OSseDeliver (i, k) -> [Printf.sprintf "(ssedlv %d %s)" (ii i) (kind_str k)]
   | OSseErr i -> [Printf.sprintf "(sseerr %d)" (ii i)]
 
@@ -66,19 +89,21 @@ let impl_ev (ipof : int -> int) (x : sexp) : ev list =
         | "ctx" -> ECtx (j, false) | "dial" -> EDial | "init" -> EInit N0 | "closed" -> EClosed CUpstream
         | "exists" -> EExists | _ -> EWrite CUpstream) in
     [ORet (j, Some e)]
-  | L [A "dlv"; i; A "d"; t] -> [ODeliver (ni (atoi i), KData (nn (atoi t)))]
+  | L [A "dlv"; i; A "d"; t] -> [ODeliver (ni (atoi i), if atoi t < 0 then KDataNil else KData (nn (atoi t)))]
   | L [A "dlv"; i; A "e"] -> [ODeliver (ni (atoi i), KError)]
   | L [A "dlv"; i; A "c"] -> [ODeliver (ni (atoi i), KComplete)]
-  | L [A "dlv"; i; A _] -> [ODeliver (ni (atoi i), KData (nn 999999))]
+  | L [A "dlv"; i; A "x"; b] -> [ODeliver (ni (atoi i), KConnErr (atoi b <> 0))]
+  | L [A "dlv"; i; A _] -> [ODeliver (ni (atoi i), KUnknown)]
   | L [A "cerr"; i] -> [OConnErr (ni (atoi i), CUpstream)]
   | L [A "cancel"; i] -> [OCancel (ni (atoi i))]
   | L [A "sdial"; d; e; p; h] -> [OSrvDial (ni (atoi d), key_of_ints (atoi e) (atoi p) (atoi h) (ipof (atoi d)))]
   | L [A "ssub"; c; w; i] -> [OSrvSub (ni (atoi c), ni (atoi w), ni (atoi i))]
   | L [A "sstop"; c; w] -> [OSrvStop (ni (atoi c), ni (atoi w))]
   | L [A "sclosed"; c] -> [OSrvClosed (ni (atoi c))]
-  | L [A "up"; c; w; A "d"; t] -> [OUp (ni (atoi c), ni (atoi w), KData (nn (atoi t)))]
-  | L [A "up"; c; w; A "e"; _] -> [OUp (ni (atoi c), ni (atoi w), KError)]
-  | L [A "up"; c; w; A "c"; _] -> [OUp (ni (atoi c), ni (atoi w), KComplete)]
+  | L [A "up"; c; p; t; w; pl; tag] ->
+    [OUp (ni (atoi c), proto_of_code (atoi p),
+          { f_type = ftype_of_code (atoi t); f_id = (if atoi w < 0 then None else Some (ni (atoi w)));
+            f_pl = pl_of_codes (atoi pl) (atoi tag) })]
   | L [A "accept"; d] -> [OAccept (ni (atoi d))]
   | L [A "reject"; d] -> [OReject (ni (atoi d))]
   | L [A "ack"; d] -> [OAck (ni (atoi d))]
@@ -86,12 +111,13 @@ let impl_ev (ipof : int -> int) (x : sexp) : ev list =
   | L [A "drop"; c] -> [ODrop (ni (atoi c))]
   | L [A "ssereq"; i] -> [OSseReq (ni (atoi i))]
   | L [A "sseret"; i; b] -> [OSseRet (ni (atoi i), sbool b)]
-  | L [A "sseup"; i; A "d"; t] -> [OSseUp (ni (atoi i), KData (nn (atoi t)))]
-  | L [A "sseup"; i; A "e"; _] -> [OSseUp (ni (atoi i), KError)]
-  | L [A "sseup"; i; A "c"; _] -> [OSseUp (ni (atoi i), KComplete)]
-  | L [A "ssedlv"; i; A "d"; t] -> [OSseDeliver (ni (atoi i), KData (nn (atoi t)))]
+  | L [A "sseup"; i; t; d; tag] ->
+    [OSseUp (ni (atoi i), { se_type = setype_of_code (atoi t); se_data = sdata_of_codes (atoi d) (atoi tag) })]
+  | L [A "ssedlv"; i; A "d"; t] -> [OSseDeliver (ni (atoi i), if atoi t < 0 then KDataNil else KData (nn (atoi t)))]
   | L [A "ssedlv"; i; A "e"] -> [OSseDeliver (ni (atoi i), KError)]
   | L [A "ssedlv"; i; A "c"] -> [OSseDeliver (ni (atoi i), KComplete)]
+  | L [A "ssedlv"; i; A "x"; b] -> [OSseDeliver (ni (atoi i), KConnErr (atoi b <> 0))]
+  | L [A "ssedlv"; i; A _] -> [OSseDeliver (ni (atoi i), KUnknown)]
   | L [A "sseerr"; i] -> [OSseErr (ni (atoi i))]
   | _ -> []
 
@@ -100,7 +126,9 @@ let canon_impl (owner : int -> int) (x : sexp) : string option =
   match x with
   | L [A "ssub"; c; w; i] -> Some (Printf.sprintf "(ssub %s %s %s)" (atom c) (atom i) (atom i))
   | L [A "sstop"; c; w] -> Some (Printf.sprintf "(sstop %s %d)" (atom c) (owner (atoi w)))
-  | L [A "up"; c; w; k; t] -> Some (Printf.sprintf "(up %s %d %s %s)" (atom c) (owner (atoi w)) (atom k) (atom t))
+  | L [A "up"; c; p; t; w; pl; tag] ->
+    Some (up_str (atoi c) (atoi p) (atoi t) (if atoi w < 0 then -2 else owner (atoi w)) (atoi pl) (atoi tag))
+  | L [A "sseup"; i; t; d; tag] -> Some (sseup_str (atoi i) (atoi t) (atoi d) (atoi tag))
   | L [A "upfail"; _] -> None
   | _ -> Some (print_sexp x)
 
@@ -174,16 +202,38 @@ let handle (x : sexp) : (string * string) list =
        (handler called), then the subscriber's ctx is cancelled and its cancel function runs to the
        end BEFORE the read loop's own removeSub (quiesce runs subscriber actions first) *)
     let armed = Hashtbl.create 4 in
-    let do_msg (i : int) (a : action) (term : bool) : ev list option =
-      if term && Hashtbl.mem armed i && not (!s.ctxc (ni i)) then
-        match step !s a with
-        | Some (s1, e1) ->
-          let delivered = List.exists (fun e -> match e with ODeliver (j, _) -> ii j = i | _ -> false) e1 in
-          if delivered then overlap := true;
-          let (s1', e1') = if delivered then (match step s1 (ACtxCancel (ni i)) with Some (x, e) -> (x, e1 @ e) | None -> (s1, e1)) else (s1, e1) in
-          let (s2, e2) = quiesce fuel nsub s1' in s := s2; record e1'; record e2; Some (e1' @ e2)
-        | None -> None
-      else do_step a in
+    let do_msg (a : action) : ev list option =
+      match step !s a with
+      | Some (s1, e1) ->
+        let hit = List.filter_map (fun e -> match e with
+            | ODeliver (j, k) when terminal k && Hashtbl.mem armed (ii j) && not (s1.ctxc j) -> Some j | _ -> None) e1 in
+        let (s1', e1') = List.fold_left (fun (x, evs) j ->
+            overlap := true;
+            match step x (ACtxCancel j) with Some (y, e) -> (y, evs @ e) | None -> (x, evs)) (s1, e1) hit in
+        let (s2, e2) = quiesce fuel nsub s1' in s := s2; record e1'; record e2; Some (e1' @ e2)
+      | None -> None in
+    (* cancelack: dialler i is cancelled between connection_ack and its subscribe frame (the harness does it from
+       the transport's "connected" log line).  Only for a dial started inside i's own (sub i) window. *)
+    let own_dial = Hashtbl.create 4 in
+    let armed_ack = Hashtbl.create 4 in
+    let proto_for (k : key) = let (_, p, _, _) = ints_of_key k in if p = 2 then PGws else PTws in
+    let do_ack (d : int) : ev list option =
+      match !s.dials (ni d) with
+      | None -> None
+      | Some x ->
+        let o = ii x.d_owner in
+        let a = UpAck (ni d, proto_for x.d_key) in
+        if Hashtbl.mem armed_ack o && Hashtbl.mem own_dial d then begin
+          Hashtbl.remove armed_ack o;
+          match step !s a with
+          | Some (s1, e1) ->
+            overlap := true;
+            let (s1', e1') = (match step s1 (ACtxCancel (ni o)) with Some (y, e) -> (y, e1 @ e) | None -> (s1, e1)) in
+            let (s2, e2) = quiesce fuel nsub s1' in s := s2; record e1'; record e2; Some (e1' @ e2)
+          | None -> None end
+        else do_step a in
+    let cproto c = match !s.cns c with Some x -> x.c_proto | None -> PTws in
+    let shared c = match !s.cns c with Some x -> List.length x.c_subs > 1 | None -> false in
     let conn_of i = (* latest connection on which i's subscribe frame was seen *)
       List.fold_left (fun acc e -> match e, acc with
           | OSrvSub (c, w, j), None when ii j = i -> Some (c, w) | _ -> acc) None !mlog in
@@ -194,7 +244,14 @@ let handle (x : sexp) : (string * string) list =
       | L [A "sub"; i; _] ->
         let i = atoi i in
         (match !s.dialing (keyof i) with Some _ -> overlap := true | None -> ());
-        opt (do_step (ASub (ni i, keyof i)))
+        let r = opt (do_step (ASub (ni i, keyof i))) in
+        (match !s.pc (ni i) with SDial d -> Hashtbl.replace own_dial (ii d) () | _ -> ());
+        r
+      | L [A "cancelack"; i] ->
+        let i = atoi i in
+        (match !s.pc (ni i) with
+         | SDial d when Hashtbl.mem own_dial (ii d) && not (!s.ctxc (ni i)) -> Hashtbl.replace armed_ack i (); []
+         | _ -> ["(skip)"])
       | L [A "cancel"; i] ->
         let i = atoi i in
         (match !s.dialing (keyof i) with Some _ -> overlap := true | None -> ());
@@ -227,7 +284,7 @@ let handle (x : sexp) : (string * string) list =
       | L [A "ack"; a] ->
         let k = keyof (atoi a) in
         (match List.find_opt (fun (_, x) -> x.d_phase = DInit && key_eqb x.d_key k) (dial_list !s) with
-         | Some (d, _) -> opt (do_step (UpAck (ni d)))
+         | Some (d, _) -> opt (do_ack d)
          | None -> ["(skip)"])
       | L [A "initfail"; a; r] ->
         let k = keyof (atoi a) in
@@ -236,17 +293,36 @@ let handle (x : sexp) : (string * string) list =
          | None -> ["(skip)"])
       | L [A ("next" | "complete" | "error" as op); i; _] | L [A ("complete" | "error" as op); i] ->
         let tag = (match e with L [_; _; t] -> atoi t | _ -> 0) in
-        let k = (match op with "next" -> KData (nn tag) | "complete" -> KComplete | _ -> KError) in
         (match conn_of (atoi i) with
-         | Some (c, w) -> opt (do_msg (atoi i) (UpMsg (c, w, k)) (match k with KData _ -> false | _ -> true))
+         | Some (c, w) ->
+           let f = (match op with
+               | "next" -> { f_type = (if cproto c = PGws then FData else FNext); f_id = Some w; f_pl = PObj (nn tag) }
+               | "complete" -> { f_type = FComplete; f_id = Some w; f_pl = PNone }
+               | _ -> { f_type = FError; f_id = Some w; f_pl = PObj N0 }) in
+           opt (do_msg (UpMsg (c, f)))
          | None -> ["(skip)"])
       | L [A "nextx"; a; b; t] ->
         (match conn_of (atoi a), conn_of (atoi b) with
-         | Some (c, _), Some (_, w) -> opt (do_step (UpMsg (c, w, KData (nn (atoi t)))))
+         | Some (c, _), Some (_, w) ->
+           opt (do_step (UpMsg (c, { f_type = (if cproto c = PGws then FData else FNext); f_id = Some w; f_pl = PObj (nn (atoi t)) })))
          | _, _ -> ["(skip)"])
       | L [A "junk"; a] ->
         (match conn_of (atoi a) with
-         | Some (c, _) -> opt (do_step (UpMsg (c, ni 5000, KData N0)))
+         | Some (c, _) -> opt (do_step (UpMsg (c, { f_type = (if cproto c = PGws then FData else FNext); f_id = Some (ni 5000); f_pl = PObj N0 })))
+         | None -> ["(skip)"])
+      | L [A "frame"; a; t; sel; pl; tag] ->
+        (* on a's connection: any frame type of either sub-protocol, id of subscriber sel / none (-1) / junk (-2) *)
+        (match conn_of (atoi a) with
+         | Some (c, _) ->
+           let id = (match atoi sel with
+               | -1 -> Some None
+               | -2 -> Some (Some (ni 5000))
+               | k -> (match conn_of k with Some (_, w) -> Some (Some w) | None -> None)) in
+           (match id with
+            | Some fid when atoi t >= 0 && atoi t <= 10 ->
+              if shared c then overlap := true;
+              opt (do_msg (UpMsg (c, { f_type = ftype_of_code (atoi t); f_id = fid; f_pl = pl_of_codes (atoi pl) (atoi tag) })))
+            | _ -> ["(skip)"])
          | None -> ["(skip)"])
       | L [A ("drop" | "bad"); a] ->
         let k = keyof (atoi a) in
@@ -271,7 +347,7 @@ let handle (x : sexp) : (string * string) list =
                 let (_, _, _, ip) = ints_of_key x.d_key in out := !out @ [Printf.sprintf "(sinit %d %d)" d ip] end;
               (match !s.dials (ni d) with
                | Some y when y.d_phase = DInit ->
-                 (match do_step (UpAck (ni d)) with Some evs -> out := !out @ strs evs | None -> ())
+                 (match do_ack d with Some evs -> out := !out @ strs evs | None -> ())
                | _ -> ())
           done with Exit -> ());
         !out
@@ -282,9 +358,11 @@ let handle (x : sexp) : (string * string) list =
       | L [A "ssub"; i] -> opt (do_step (SseSub (ni (atoi i))))
       | L [A "sok"; i] -> opt (do_step (SseOk (ni (atoi i))))
       | L [A "sfail"; i] -> opt (do_step (SseFail (ni (atoi i))))
-      | L [A "snext"; i; t] -> opt (do_step (SseMsg (ni (atoi i), KData (nn (atoi t)))))
-      | L [A "scomplete"; i] -> opt (do_step (SseMsg (ni (atoi i), KComplete)))
-      | L [A "serror"; i] -> opt (do_step (SseMsg (ni (atoi i), KError)))
+      | L [A "snext"; i; t] -> opt (do_step (SseMsg (ni (atoi i), { se_type = SNext; se_data = DObj (nn (atoi t)) })))
+      | L [A "scomplete"; i] -> opt (do_step (SseMsg (ni (atoi i), { se_type = SComplete; se_data = DEmpty })))
+      | L [A "serror"; i] -> opt (do_step (SseMsg (ni (atoi i), { se_type = SError; se_data = DObj N0 })))
+      | L [A "sframe"; i; t; d; tag] ->
+        opt (do_step (SseMsg (ni (atoi i), { se_type = setype_of_code (atoi t); se_data = sdata_of_codes (atoi d) (atoi tag) })))
       | L [A "sdrop"; i] -> opt (do_step (SseDrop (ni (atoi i))))
       | L [A "scancel"; i] -> opt (do_step (SseCancel (ni (atoi i))))
       | _ -> ["(unknown-event)"] in
@@ -307,6 +385,19 @@ let handle (x : sexp) : (string * string) list =
     if mode = "sse" then begin
       if not (sse_routing_b ilog) then add "specfail" "routing/sse a stream's event reached another handler, was lost or duplicated"
     end else begin
+      (* terminal_local, window by window: a frame addressed to ONE subscription reaches its holder only and nobody on
+         the connection is told that it is gone (the windows of protocol violations / drops are not concerned) *)
+      List.iter (fun w -> match w with
+          | L (A "w" :: _ :: obs) ->
+            let evs = List.concat_map (impl_ev (fun _ -> 0)) obs in
+            (match List.filter_map (fun e -> match e with OUp (_, p, f) -> Some (spec_class p f) | _ -> None) evs with
+             | [FcSub (wid, k)] when not (List.exists (fun e -> match e with ODrop _ | OPing _ -> true | _ -> false) evs) ->
+               let holder = (match iowner (ii wid) with -1 -> None | i -> Some (ni i)) in
+               if not (tlocal_b holder evs) then
+                 add "specfail" (Printf.sprintf "terminal_local a frame addressed to one subscription (%s) ended or reached another subscription of the same connection"
+                                   (if terminal k then "terminal" else "not terminal"))
+             | _ -> ())
+          | _ -> ()) wins;
       if not (routing_b ilog) then add "specfail" "routing an upstream frame was not delivered to exactly its live subscription in order";
       if not (shared_b keys ilog) then add "specfail" "shared_iff_same_key a subscribe frame arrived on a connection dialled for another option tuple";
       if idle_mode <> 2 && not (drain_b ilog) then add "specfail" "conns_drain an acknowledged connection without live subscription is still open at quiescence";
@@ -318,7 +409,10 @@ let handle (x : sexp) : (string * string) list =
       if not (isolated_b keys ilog) then
         add "specfail" ("cancel_isolated a subscriber with a live ctx and a healthy upstream failed; " ^ cause);
       (* differential form, fault-free schedules only: j fails with i present, not without *)
-      let faultfree = not (List.exists (fun e -> match e with OReject _ | OInitFail _ | ODrop _ | OPing _ -> true | _ -> false) ilog) in
+      let faultfree = not (List.exists (fun e -> match e with
+          | OReject _ | OInitFail _ | ODrop _ | OPing _ -> true
+          | OUp (_, p, f) -> spec_class p f = FcFault
+          | _ -> false) ilog) in
       (match rest with
        | [L (A "minus" :: ms)] when faultfree ->
          List.iter (fun m -> match m with
